@@ -189,9 +189,10 @@ def audit_text():
 def audit_axioms(module, theorems):
     """#print axioms of every property theorem; returns {theorem: [axioms]} and raw output"""
     os.makedirs(os.path.join(BUILD, "audit"), exist_ok=True)
-    f = os.path.join(BUILD, "audit", module.replace(".", "_") + ".lean")
+    f = os.path.join(BUILD, "audit", module.replace(".", "_").replace(" ", "__") + ".lean")
     with open(f, "w") as o:
-        o.write(f"import {module}\n")
+        for m_ in module.split():
+            o.write(f"import {m_}\n")
         for t in theorems:
             o.write(f"#print axioms {t}\n")
     with Lock("lake"):
@@ -273,12 +274,17 @@ class Ctx:
         if env:
             e.update(env)
         with open(inp) as fin:
-            p = subprocess.run([exe], stdin=fin, stdout=subprocess.PIPE, stderr=subprocess.PIPE, timeout=timeout, env=e)
+            try:
+                p = subprocess.run([exe], stdin=fin, stdout=subprocess.PIPE, stderr=subprocess.PIPE, timeout=timeout, env=e)
+                so, se, rc = p.stdout, p.stderr, p.returncode
+            except subprocess.TimeoutExpired as ex:
+                # a driver that does not answer is a result (deadlock / lost wake-up), not an error of the checker
+                so, se, rc = ex.stdout or b"", (ex.stderr or b"") + f"\nTIMEOUT: no reply within {timeout} s (process killed)".encode(), -999
         os.remove(inp)
-        out = p.stdout.decode(errors="replace").split("\n")
+        out = so.decode(errors="replace").split("\n")
         if out and out[-1] == "":
             out.pop()
-        return out, p.returncode, p.stderr.decode(errors="replace")[-6000:]
+        return out, rc, se.decode(errors="replace")[-6000:]
 
     def run_impl(self, exe, lines, stream, timeout=3600):
         """run the C++ driver; a sanitizer abort or crash is bisected to the first offending line"""
@@ -289,11 +295,11 @@ class Ctx:
         k = len(out)
         bad = lines[k] if k < len(lines) else "<end>"
         # try to reproduce on the single line (stateless streams) for a minimal replay
-        out1, rc1, err1 = self.run_lines(exe, [bad], timeout) if k < len(lines) else ([], 0, "")
+        out1, rc1, err1 = self.run_lines(exe, [bad], timeout if rc != -999 else min(timeout, 60)) if k < len(lines) else ([], 0, "")
         minimal = [bad] if rc1 != 0 else lines[max(0, k - 50):k + 1]
-        kind = "sanitizer" if ("ERROR: AddressSanitizer" in err or "runtime error" in err) else "crash"
+        kind = "hang" if rc == -999 else "sanitizer" if ("ERROR: AddressSanitizer" in err or "runtime error" in err) else "crash"
         self.violate(f"{stream}:{kind}:{first_frame(err)}",
-                     f"C++ driver aborted ({kind}) in stream {stream} at request {k}: {first_err_line(err)}",
+                     f"C++ driver {'did not return (blocked for ever?)' if kind == 'hang' else 'aborted (' + kind + ')'} in stream {stream} at request {k} `{bad[:80]}`: {first_err_line(err)}",
                      {"stream": stream, "driver": os.path.basename(exe), "ops": minimal, "stderr": err[-3000:], "returncode": rc})
         # continue with what we have, padded so that callers can still index
         return out + ["<crash>"] * (len(lines) - len(out))
@@ -335,7 +341,7 @@ class Ctx:
 
 def first_err_line(err):
     for l in err.split("\n"):
-        if "ERROR" in l or "runtime error" in l or "Assertion" in l or "terminate" in l:
+        if "ERROR" in l or "runtime error" in l or "Assertion" in l or "terminate" in l or "TIMEOUT" in l:
             return l.strip()[:300]
     return err.strip().split("\n")[0][:300] if err.strip() else "no stderr"
 
